@@ -8,7 +8,9 @@ for e in kf:
     print(f"| {e['property']} | {e['status']} | {e.get('commit','-')} | {e['what'][:260].replace('|','/')} |")
 print()
 print("| seed | property | what the change needs to manifest | caught by (first failing obligations) |\n|---|---|---|---|")
-for d in sorted(glob.glob(os.path.join(ROOT, "seeded", "*"))):
+import sys
+SEEDDIRS = [a for a in sys.argv[1:]] or ["seeded"]
+for d in sorted(x for sd in SEEDDIRS for x in glob.glob(os.path.join(ROOT, sd, "*"))):
     try:
         m = json.load(open(os.path.join(d, "meta.json")))
     except Exception:
